@@ -25,6 +25,10 @@ TNext ==
     \/ Is("done") /\ Complete(Rec.ch, Rec.vok = 1, Rec.erri) /\ Adv
     \/ Is("end") /\ End /\ Adv
     \/ Is("summary") /\ ~active /\ SummaryOk(Rec) /\ UNCHANGED vars /\ Adv
+    \* a burst of tiny bulk operations measured by the harness: every operation signalled exactly once, after all of
+    \* its calls had returned, every index called exactly once
+    \/ Is("burst") /\ ~active /\ Rec.sig_bad = 0 /\ Rec.idx_bad = 0 /\ Rec.early = 0 /\ Rec.hung = 0
+         /\ UNCHANGED vars /\ Adv
     \/ Is("reset") /\ ~active /\ UNCHANGED vars /\ Adv
 TSpec == TInit /\ [][TNext]_tvars
 NotAccepted == l <= Len(TraceLog)
